@@ -330,10 +330,24 @@ class Ctx:
 
     # ------------------------------------------------------------------ finish
     def known_findings(self):
-        fn = os.path.join(VERIF, "known_findings.json")
-        if not os.path.exists(fn):
-            return []
-        return [e for e in json.load(open(fn))["findings"] if e["property"] == self.pid]
+        """Entries for this property from known_findings.json (the committed,
+        assembled file) and from the fragments in known_findings.d/ (same
+        content; read too so a fragment works before the file is reassembled).
+        Read-only: nothing is ever added at check time."""
+        out, seen = [], set()
+        files = [os.path.join(VERIF, "known_findings.json")]
+        d = os.path.join(VERIF, "known_findings.d")
+        if os.path.isdir(d):
+            files += [os.path.join(d, f) for f in sorted(os.listdir(d)) if f.endswith(".json")]
+        for fn in files:
+            if not os.path.exists(fn):
+                continue
+            for e in json.load(open(fn)).get("findings", []):
+                k = (e.get("property"), e.get("key"), e.get("status"))
+                if e.get("property") == self.pid and k not in seen:
+                    seen.add(k)
+                    out.append(e)
+        return out
 
     def finish(self, module=None):
         known = {e["key"]: e for e in self.known_findings() if e.get("status") == "known"}
